@@ -613,6 +613,77 @@ ZIP_GUARDS = {
 }
 
 
+_LEN_KEEPING = {"iter", "iter_mut", "into_iter", "clone", "cloned", "copied", "to_vec", "as_slice", "as_ref", "to_owned", "borrow", "as_mut"}
+
+
+def _len_aliases(body):
+    """names of one function that denote a list of the same length: `let x = y.iter()..`, `let x = &y`, and position by position through
+    `let (x, ..) = match/if .. { .. => (y, ..) }`.  Returns name -> set of names (the name itself included)."""
+    parent = {}
+
+    def find(x):
+        while parent.get(x, x) != x:
+            x = parent[x]
+        return x
+
+    def union(x, y):
+        rx, ry = find(x), find(y)
+        if rx != ry:
+            parent[rx] = ry
+
+    def src(e):
+        while True:
+            if e["k"] in ("Ref", "Paren"):
+                e = e["expr"]
+            elif e["k"] == "MethodCall" and e["method"] in _LEN_KEEPING and not e["args"]:
+                e = e["recv"]
+            else:
+                break
+        return e["segs"][0] if e["k"] == "Path" and len(e["segs"]) == 1 else None
+
+    def tails(e):
+        if e["k"] == "Match":
+            out = []
+            for a_ in e["arms"]:
+                out += tails(a_["body"])
+            return out
+        if e["k"] == "If" and e.get("else") is not None:
+            return tails(e["then"]) + tails(e["else"])
+        if e["k"] == "Block":
+            if e["stmts"] and e["stmts"][-1]["k"] == "ExprStmt" and not e["stmts"][-1].get("semi"):
+                return tails(e["stmts"][-1]["expr"])
+            return []
+        if e["k"] == "Paren":
+            return tails(e["expr"])
+        return [e]
+
+    for l in S.find(body, "Local"):
+        if l.get("init") is None:
+            continue
+        pat = S.strip_refs(l["pat"])
+        if pat["k"] == "PType" and isinstance(pat.get("pat"), dict):
+            pat = pat["pat"]
+        if pat["k"] == "PIdent":
+            for t_ in tails(l["init"]):
+                y = src(t_)
+                if y:
+                    union(pat["name"], y)
+        elif pat["k"] == "PTuple":
+            for t_ in tails(l["init"]):
+                if t_["k"] == "Tuple" and len(t_["elems"]) == len(pat["elems"]):
+                    for pe, te in zip(pat["elems"], t_["elems"]):
+                        pe = S.strip_refs(pe)
+                        y = src(te)
+                        if pe["k"] == "PIdent" and y:
+                            union(pe["name"], y)
+    names = set(parent) | set(parent.values())
+
+    def cls(x):
+        r = find(x)
+        return {n_ for n_ in names if find(n_) == r} | {x}
+    return cls
+
+
 def r03_13(run, model):
     run.rule("R03.13", "two lists are only zipped after their lengths were compared: every `.zip(` in the typer that pairs expressions/patterns/"
                        "parameters with types is covered by an arity test on the same operands (same condition, an earlier rejecting test, "
@@ -627,12 +698,15 @@ def r03_13(run, model):
                 if c["k"] != "MethodCall" or c["method"] != "zip" or not c["args"]:
                     continue
 
-                def root(e):
-                    while e["k"] == "MethodCall":
-                        e = e["recv"]
+                def root_node(e):
+                    while e["k"] in ("MethodCall", "Ref", "Paren"):
+                        e = e["recv"] if e["k"] == "MethodCall" else e["expr"]
                     while e["k"] == "Field":
                         e = e["base"]
-                    return S.norm_ws(run.facts.text(rel, e["sp"]))
+                    return e
+
+                def root(e):
+                    return S.norm_ws(run.facts.text(rel, root_node(e)["sp"]))
                 a, b = root(c["recv"]), root(c["args"][0])
                 if ft is None:
                     ft = S.norm_ws(run.facts.text(rel, f.body["sp"]))
@@ -641,6 +715,20 @@ def r03_13(run, model):
                 auto = re.search(r"[^;{}]*" + p1 + r"[^;{}]*" + p2 + r"[^;{}]*|[^;{}]*" + p2 + r"[^;{}]*" + p1 + r"[^;{}]*", ft)
                 tab = ZIP_GUARDS.get((f.name, a, b))
                 ok = auto is not None or (tab is not None and re.search(tab, ft) is not None)
+                if not ok:
+                    # the operands under other names: `let (expected, ret) = match t { TFunc { params: tys, .. } if tys.len() == params.len() => (tys, ..) }`
+                    cls = _len_aliases(f.body)
+                    ca, cb = cls(a), cls(b)
+                    for cmp_ in S.walk(f.body):
+                        if cmp_["k"] == "Binary" and cmp_["op"] in ("==", "!=", "<", ">", "<=", ">="):
+                            sides = []
+                            for sd in (cmp_.get("left", cmp_.get("lhs")), cmp_.get("right", cmp_.get("rhs"))):
+                                if sd["k"] == "MethodCall" and sd["method"] == "len" and not sd["args"]:
+                                    r_ = root_node(sd["recv"])
+                                    sides.append(r_["segs"][0] if r_["k"] == "Path" and len(r_["segs"]) == 1 else None)
+                            if len(sides) == 2 and None not in sides and ((sides[0] in ca and sides[1] in cb) or (sides[0] in cb and sides[1] in ca)):
+                                ok = True
+                                auto = re.search(".+", S.norm_ws(run.facts.text(rel, cmp_["sp"])))
                 run.ob("R03.13", f"{f.name}|zip({a}, {b}) after an arity test", ok, site(rel, c["sp"]),
                        ("arity test `" + auto.group(0)[-60:] + "`") if auto else (f"recorded alias guard /{tab}/ " + ("present" if ok else "MISSING") if tab else "no arity test on these operands found"),
                        witness="let t: (int32, int32) = (1, 2, true) is accepted: the third component is never checked, Core carries a 3-component ETuple typed as a 2-tuple")
